@@ -413,6 +413,124 @@ type c02Store struct {
 	keyOf    map[local.Key]int
 	digests  []digest.Digest
 	sync     bool // wait for quiescence after every operation
+
+	evmu       sync.Mutex
+	events     []Sx
+	lastLoc    int
+	lastLocVal [2]int64
+	rec        *c02Rec
+}
+
+
+// ---------------------------------------------------------------------------
+// transparent recording wrapper around the real PersistentBlockList: every
+// BlockList / PersistentStateSource call is delegated unchanged and appended
+// to the PBL-level event history of the life (judged against Persist/PBL.v)
+// ---------------------------------------------------------------------------
+
+type c02Rec struct {
+	s    *c02Store
+	bl   *local.PersistentBlockList
+	nput int
+}
+
+func (r *c02Rec) ev(e Sx) {
+	r.s.evmu.Lock()
+	r.s.events = append(r.s.events, e)
+	r.s.evmu.Unlock()
+}
+
+func (r *c02Rec) BlockReferenceToBlockIndex(ref local.BlockReference) (int, uint64, bool) {
+	return r.bl.BlockReferenceToBlockIndex(ref)
+}
+func (r *c02Rec) BlockIndexToBlockReference(i int) (local.BlockReference, uint64) {
+	return r.bl.BlockIndexToBlockReference(i)
+}
+func (r *c02Rec) PopFront() {
+	r.bl.PopFront()
+	r.ev(L(A(2)))
+}
+func (r *c02Rec) PushBack() error {
+	n0 := r.s.lastLoc
+	err := r.bl.PushBack()
+	if err != nil {
+		r.ev(L(A(1), A(0), A(0), A(0)))
+		return err
+	}
+	loc := r.s.allocLoc(n0)
+	r.ev(L(A(1), A(1), A(loc[0]), A(loc[1])))
+	return nil
+}
+func (r *c02Rec) Get(i int, d digest.Digest, off, size int64, cb buffer.DataIntegrityCallback) buffer.Buffer {
+	return r.bl.Get(i, d, off, size, cb)
+}
+func (r *c02Rec) HasSpace(i int, size int64) bool { return r.bl.HasSpace(i, size) }
+func (r *c02Rec) Put(i int, size int64) local.BlockListPutWriter {
+	w := r.bl.Put(i, size)
+	k := r.nput
+	r.nput++
+	r.ev(L(A(3), AI(i), A(size)))
+	return func(b buffer.Buffer) local.BlockListPutFinalizer {
+		f := w(b)
+		return func() (int64, error) {
+			off, err := f()
+			seed := uint64(0)
+			if err == nil {
+				_, seed = r.bl.BlockIndexToBlockReference(0)
+			}
+			r.ev(L(A(4), AI(k), AI(c02Code(err)), A(off), AU(seed)))
+			return off, err
+		}
+	}
+}
+func (r *c02Rec) GetBlockReleaseWakeup() <-chan struct{} { return r.bl.GetBlockReleaseWakeup() }
+func (r *c02Rec) GetBlockPutWakeup() <-chan struct{}     { return r.bl.GetBlockPutWakeup() }
+func (r *c02Rec) NotifySyncStarting(isFinal bool) {
+	r.bl.NotifySyncStarting(isFinal)
+	r.ev(L(A(5), AB(isFinal)))
+}
+func (r *c02Rec) NotifySyncCompleted() {
+	r.bl.NotifySyncCompleted()
+	r.ev(L(A(6)))
+}
+func (r *c02Rec) GetPersistentState() (uint32, []*pb.BlockState) {
+	oldest, blocks := r.bl.GetPersistentState()
+	rb := []Sx{}
+	for _, b := range blocks {
+		seeds := []Sx{}
+		for _, sd := range b.EpochHashSeeds {
+			seeds = append(seeds, AU(sd))
+		}
+		rb = append(rb, L(A(b.BlockLocation.OffsetBytes), A(b.BlockLocation.SizeBytes), A(b.WriteOffsetBytes), L(seeds...)))
+	}
+	r.ev(L(A(7), AU(uint64(oldest)), L(rb...)))
+	return oldest, blocks
+}
+func (r *c02Rec) NotifyPersistentStateWritten() {
+	r.bl.NotifyPersistentStateWritten()
+	r.ev(L(A(8)))
+}
+
+// c02Alloc wraps the real allocator only to learn which region NewBlock handed out.
+type c02Alloc struct {
+	local.BlockAllocator
+	s *c02Store
+}
+
+func (a c02Alloc) NewBlock() (local.Block, *pb.BlockLocation, error) {
+	b, l, err := a.BlockAllocator.NewBlock()
+	if err == nil {
+		a.s.lastLoc++
+		a.s.lastLocVal = [2]int64{l.OffsetBytes, l.SizeBytes}
+	}
+	return b, l, err
+}
+
+func (s *c02Store) allocLoc(n0 int) [2]int64 {
+	if s.lastLoc == n0 {
+		return [2]int64{-1, -1}
+	}
+	return s.lastLocVal
 }
 
 // ---- devices ----
@@ -498,11 +616,18 @@ func (d c02IndexDev) WriteAt(p []byte, off int64) (int, error) {
 	// so the block list may be consulted from this goroutine
 	e := c02Io{kind: c02IoIndex, off: off / rs, data: append([]byte(nil), p...)}
 	if s.bl != nil {
-		_, seed, found := s.bl.BlockReferenceToBlockIndex(local.BlockReference{
+		idx, seed, found := s.bl.BlockReferenceToBlockIndex(local.BlockReference{
 			EpochID:        binary.LittleEndian.Uint32(p),
 			BlocksFromLast: binary.LittleEndian.Uint16(p[4:]),
 		})
 		e.wseed, e.wok = seed, found
+		if s.rec != nil {
+			ix := int64(-1)
+			if found {
+				ix = int64(idx)
+			}
+			s.rec.ev(L(A(9), A(off/rs), AU(uint64(binary.LittleEndian.Uint32(p))), AU(uint64(binary.LittleEndian.Uint16(p[4:]))), A(ix), AU(seed)))
+		}
 	}
 	w.mu.Lock()
 	copy(w.index[off:], p)
@@ -1028,7 +1153,7 @@ func newC02Store(cfg *c02Cfg, w *c02World, syncMode bool) (s *c02Store, ok bool)
 		rbf = blobstore.CASReadBufferFactory
 	}
 	blockCount := cfg.nblocks()
-	blockAllocator := local.NewBlockDeviceBackedBlockAllocator(dataDev, rbf, cfg.sector, int64(cfg.spb), blockCount, "c02")
+	var blockAllocator local.BlockAllocator = c02Alloc{BlockAllocator: local.NewBlockDeviceBackedBlockAllocator(dataDev, rbf, cfg.sector, int64(cfg.spb), blockCount, "c02"), s: s}
 
 	dir := &c02Dir{s: s}
 	persistentStateStore := local.NewDirectoryBackedPersistentStateStore(dir)
@@ -1039,6 +1164,7 @@ func newC02Store(cfg *c02Cfg, w *c02World, syncMode bool) (s *c02Store, ok bool)
 	hashInit := persistentState.KeyLocationMapHashInitialization
 	bl, initialBlockCount := local.NewPersistentBlockList(blockAllocator, persistentState.OldestEpochId, persistentState.Blocks)
 	s.bl = bl
+	s.rec = &c02Rec{s: s, bl: bl}
 	rb := []Sx{}
 	for _, b := range persistentState.Blocks {
 		seeds := []Sx{}
@@ -1060,7 +1186,7 @@ func newC02Store(cfg *c02Cfg, w *c02World, syncMode bool) (s *c02Store, ok bool)
 	}
 	s.restored = L(AB(present), AU(uint64(persistentState.OldestEpochId)), L(rb...), hi, AI(initialBlockCount))
 
-	periodicSyncer := local.NewPeriodicSyncer(bl, &s.lock, persistentStateStore, s, s, time.Duration(c02Retry),
+	periodicSyncer := local.NewPeriodicSyncer(s.rec, &s.lock, persistentStateStore, s, s, time.Duration(c02Retry),
 		time.Duration(cfg.interval), hashInit, dataDev.Sync)
 	ctx, cancel := context.WithCancel(context.Background())
 	s.cancel = cancel
@@ -1088,7 +1214,7 @@ func newC02Store(cfg *c02Cfg, w *c02World, syncMode bool) (s *c02Store, ok bool)
 	close(go1)
 
 	policy := local.NewImmutableBlockListGrowthPolicy(cfg.cur, cfg.nw)
-	s.lbm = local.NewOldCurrentNewLocationBlobMap(bl, policy, s, "c02", int64(cfg.bs()), cfg.old, cfg.nw, initialBlockCount)
+	s.lbm = local.NewOldCurrentNewLocationBlobMap(s.rec, policy, s, "c02", int64(cfg.bs()), cfg.old, cfg.nw, initialBlockCount)
 	n := cfg.nrec
 	for n > 3 && !primes.IsPrime(n) {
 		n--
@@ -1289,8 +1415,8 @@ func (s *c02Store) do(op Sx) (Sx, bool) {
 			u.src.feed <- c02Feed{n: n}
 		} else {
 			e := op.Nth(2).Int()
-			if e < 0 || e > 16 {
-				return Sx{}, false
+			if e < 0 || e > 16 || e == 13 || e == 14 {
+				return Sx{}, false // 13/14 are the block list's own finalizer codes
 			}
 			if e == 0 {
 				u.src.feed <- c02Feed{err: io.EOF}
@@ -1626,7 +1752,10 @@ func c02RunGen(cfg *c02Cfg, w *c02World, gen Sx, depth int) (obs Sx, ok bool, ab
 		}
 		expObs = append(expObs, L(AI(info.n), c02Bools(info.dataFlags), c02Bools(info.indexFlags), AI(info.dirPending), o2))
 	}
-	return L(s.restored, slots, L(probe...), L(opres...), L(final...), logSx, L(expObs...)), true, 0
+	s.evmu.Lock()
+	evs := L(append([]Sx{}, s.events...)...)
+	s.evmu.Unlock()
+	return L(s.restored, slots, L(probe...), L(opres...), L(final...), logSx, L(expObs...), evs), true, 0
 }
 
 func c02ParseCfg(c, keys Sx) (*c02Cfg, bool) {
